@@ -209,6 +209,20 @@ KindsDisjoint ==
         /\ ~MemberE(acc, p.e)
         /\ \A i \in 1..Len(meta) : \A sp \in BOOLEAN : PLeaf(p.e) # LeafHash(meta[i].id, meta[i].ver, i - 1, sp)
 
+\* Second use in the block.  An earlier, honest transaction of the block under validation may already
+\* have touched the element: revised it (contracts) or spent it (outputs).  What the block has pending
+\* for an ID proves nothing about the element a LATER transaction carries under that ID: after a revision
+\* the later parent must still be exactly the live leaf (the contract as the accumulator has it, with its
+\* own proof); after a spend nothing is acceptable any more.
+ReuseAccept(a, pending, e) == IF pending = "spent" THEN FALSE ELSE MemberE(a, e)
+ReuseSound ==
+  Full =>
+    \A hs \in {HashesOf(meta)} :
+      \A np \in {[i \in 0..(acc.n - 1) |-> NaivePath(hs, i)]} :
+        \A p \in Probes :
+          /\ ReuseAccept(acc, "revised", [p.e EXCEPT !.spent = FALSE]) <=> ExactE(meta, np, [p.e EXCEPT !.spent = FALSE])
+          /\ ~ReuseAccept(acc, "spent", p.e)
+
 \* The carrier.  The supplement travels with a block, and the block can take several forms: with v1
 \* transactions or without any, with V2 block data (from AllowHeight on; possibly holding v2
 \* transactions) or without.  Before RequireHeight the verdict on the supplement does not depend on
